@@ -419,6 +419,7 @@ def run_check(pid, tier, seed):
             dis = 0
             of = 0
             oracle = s.oracle or getattr(mod, "oracle", None)
+            canon = getattr(mod, "canon", None)     # optional: canon(req, out) applied to BOTH sides before diffing
             kn = 0
             for r, a, m in zip(reqs, impl, model):
                 total_eval += 1
@@ -431,7 +432,13 @@ def run_check(pid, tier, seed):
                     except Exception as e:
                         fail = None
                         ctx.notes.append(f"oracle raised on {r[:80]}: {e!r}")
-                differs = s.compare and a != m
+                if canon is not None and s.compare:
+                    try:
+                        differs = canon(r, a) != canon(r, m)
+                    except Exception:
+                        differs = a != m
+                else:
+                    differs = s.compare and a != m
                 if s.compare and not differs:
                     agree += 1
                 if not fail and not differs:
